@@ -414,6 +414,38 @@ Definition store_ops (s : fs) (loc : path) (pid gid : N) (cpv : path) (chunks : 
   let rep := replace_ops tmp (target_path loc cpv) MODE_TMP chunks (perm_ops tmp gid) in
   if isdir s (parent tmp) then rep else mkdir_ops s (parent tmp) ++ rep.
 
+(* the same call list with an arbitrary list of permission calls between close and rename
+   (store_ops = store_ops_with ... (perm_ops tmp gid), by computation) *)
+Definition store_ops_with (s : fs) (loc : path) (pid : N) (cpv : path) (chunks : list (list N))
+                          (perms : list op) : list op :=
+  let tmp := tmp_path loc pid cpv in
+  let rep := replace_ops tmp (target_path loc cpv) MODE_TMP chunks perms in
+  if isdir s (parent tmp) then rep else mkdir_ops s (parent tmp) ++ rep.
+
+(* A FAULT: the k-th system call of the store raises OSError (EIO, ENOSPC, EXDEV, EACCES ...)
+   instead of being performed.  What _setitem's error handling then does to the tree:
+     open / mkdir     CacheCorruption, nothing cleaned up
+     a flush (write)  the OSError propagates, the staging file stays
+     chown            _ensure_access gives up (no chmod either) and returns False; the store goes on
+     chmod            likewise, after the chown
+     rename           os.remove(staging file), CacheCorruption *)
+Definition eio_ops (s : fs) (loc : path) (pid gid : N) (cpv : path) (chunks : list (list N)) (k : nat) : list op :=
+  let tmp := tmp_path loc pid cpv in
+  let ops := store_ops s loc pid gid cpv chunks in
+  match nth_error ops k with
+  | Some (Chown _ _ _) => store_ops_with s loc pid cpv chunks []
+  | Some (Chmod _ _) => store_ops_with s loc pid cpv chunks [Chown tmp None (Some gid)]
+  | Some (Rename _ _) => firstn k ops ++ [Unlink tmp]
+  | _ => firstn k ops
+  end.
+(* what cache[cpv] = values raises then: 0 nothing, 1 CacheCorruption, 2 the raw OSError *)
+Definition eio_outcome (s : fs) (loc : path) (pid gid : N) (cpv : path) (chunks : list (list N)) (k : nat) : N :=
+  match nth_error (store_ops s loc pid gid cpv chunks) k with
+  | Some (Chown _ _ _) | Some (Chmod _ _) | None => 0
+  | Some (Append _ _) => 2
+  | Some _ => 1
+  end.
+
 (* cache[cpv] on a filesystem state *)
 Definition read_entry (lay : layout) (s : fs) (loc : path) (cpv : path) : result :=
   match lookup s (target_path loc cpv) with
@@ -548,3 +580,19 @@ Definition run_crash (c : crash_case) : val :=
           VL (map (fun f => enc_result (read_entry (cc_lay c) sk LOC (fst f))) (cc_files c));
           VL (map VS (sort_strs (keys sk LOC)))]
   end.
+(* stream "fault": the cc_k-th system call of the store fails with EIO; afterwards what the
+   store raised, cache[cpv], every other entry and the key listing are observed *)
+Definition run_fault (c : crash_case) : val :=
+  match serialize (cc_lay c) (cc_entry c) with
+  | None => VErr (lit "KeyError")
+  | Some content =>
+      let s0 := mk_fs (cc_loc c) (cc_files c) in
+      let ch := cc_chunks c content in
+      let sk := run (eio_ops s0 LOC (cc_pid c) (cc_gid c) (cc_cpv c) ch (cc_k c)) s0 in
+      VL [match eio_outcome s0 LOC (cc_pid c) (cc_gid c) (cc_cpv c) ch (cc_k c) with
+          | 0 => VNone | 1 => VErr (lit "CacheCorruption") | _ => VErr (lit "OSError") end;
+          enc_result (read_entry (cc_lay c) sk LOC (cc_cpv c));
+          VL (map (fun f => enc_result (read_entry (cc_lay c) sk LOC (fst f))) (cc_files c));
+          VL (map VS (sort_strs (keys sk LOC)))]
+  end.
+
